@@ -584,6 +584,10 @@ pub struct Campaign { pub cov: Value, pub complete: bool, pub states: u64, pub t
 
 /// Farms the units out to one pinned process per core and aggregates
 pub fn explore_units(rep: &Reporter, focus: &[&str], units: &[Unit], budget_s: f64, exec_cap: u64) -> Campaign {
+    let budget_s = cap_secs(budget_s as u64) as f64;
+    // list generation: every unit must be visited (no wall cap); the known signatures of this engine come from the
+    // default schedule of a unit, so a small execution cap per unit is enough there
+    let exec_cap = if std::env::var("VERIF_KNOWN_GEN").is_ok() { exec_cap.min(2000) } else if cap_secs(1) > 1 { u64::MAX / 4 } else { exec_cap };
     // cheap units first (the stripes visit their units in list order), so that a wall clock cap hits the deepest bounds only
     let mut sorted: Vec<Unit> = units.to_vec();
     sorted.sort_by_key(|u| (u.bound + if u.cut == CutMode::EveryPoll { 1 } else { 0 }, u.run));
@@ -783,7 +787,7 @@ pub fn check(prop: &str, tier: &str) -> i32 {
     });
     cov["scope"] = unit_scope(&units);
     // input dimension: the parallel solver with ONE worker over the bounded-exhaustive families (deterministic)
-    let dl = Some(Instant::now() + Duration::from_secs(if th { 600 } else { 12 }));
+    let dl = Some(Instant::now() + Duration::from_secs(cap_secs(if th { 600 } else { 12 })));
     let mut plans = crate::checks::par1_plans(th, crate::bnb::Mode::Plain, false);
     if prop == "C04" { let mut cut = crate::checks::par1_plans(th, crate::bnb::Mode::Cutoffs, false); for p in cut.iter_mut() { p.limit = Some(p.limit.unwrap_or(u64::MAX).min(if th { 2000 } else { 150 })); } plans.extend(cut); }
     let (a1, s1, c1) = crate::bnb::run_plans(&rep, &[prop], &plans, dl);
